@@ -1,14 +1,11 @@
 """C09 - every accepted assignment becomes exactly one container with exactly one outcome."""
-from ..report import Report
 from .. import simcheck
 
 
 def main(tier, seed):
-    rep = Report("C09", tier, seed)
-    rep.cov["rule"] = simcheck.RULE_F1
-    simcheck.run_f1(rep, "C09", tier)
+    rep = simcheck.sim_main("C09", tier, seed, ["F1", "F2", "F3"])
     return rep.finish()
 
 
 def replay(rec):
-    return simcheck.replay_f1(rec)
+    return simcheck.replay(rec)
